@@ -295,10 +295,18 @@ def bytesLe : Bytes → Bytes → Bool
   | _ :: _, [] => false
   | a :: as, b :: bs => if a < b then true else if b < a then false else bytesLe as bs
 
+/-- `sort.Strings` and its use on map keys: a sorted rearrangement.  Insertion sort (structural,
+    so that the kernel can evaluate it); the keys sorted here are distinct, so every correct
+    sort gives the same list. -/
+def insertBy {α} (le : α → α → Bool) (x : α) : List α → List α
+  | [] => [x]
+  | y :: ys => if le x y then x :: y :: ys else y :: insertBy le x ys
+
+def sortBy {α} (le : α → α → Bool) (l : List α) : List α := l.foldr (insertBy le) []
+
 /-- The "Balance" section: the commodities of `balances[account]`, sorted, with their sums. -/
 def accountBalanceLines (m : Balances) (account : Bytes) : List (Bytes × Dec) :=
-  ((m.filter (fun e => e.1.1 == account)).map (fun e => (e.1.2, e.2))).mergeSort
-    (fun a b => bytesLe a.1 b.1)
+  sortBy (fun a b => bytesLe a.1 b.1) ((m.filter (fun e => e.1.1 == account)).map (fun e => (e.1.2, e.2)))
 
 /-- `countPostingsForAccountInTransactions`: every posting to the account, with or without an
     amount. -/
@@ -326,7 +334,7 @@ def insertUniq (v : Bytes) (l : List Bytes) : List Bytes := if l.contains v then
 
 /-- `collectTagValues`: distinct values, sorted. -/
 def tagValues (name : Bytes) (txs : List Transaction) : List Bytes :=
-  ((allTags txs).foldl (fun s t => if t.name == name then insertUniq t.value s else s) []).mergeSort bytesLe
+  sortBy bytesLe ((allTags txs).foldl (fun s t => if t.name == name then insertUniq t.value s else s) [])
 
 /-! ### Hover -/
 
